@@ -1,8 +1,13 @@
 package props
 
 import (
+	"bytes"
 	"fmt"
+	"net/http"
+	"runtime"
 	"strings"
+	"sync/atomic"
+	"time"
 
 	"github.com/vicanso/pike/cache"
 	"github.com/vicanso/pike/config"
@@ -159,6 +164,42 @@ func init() {
 			}
 			st.NOutcomes = int(st.Execs)
 			c.Sample(map[string]interface{}{"scenario": "sizes", "sizes": sizes})
+		}
+		// "held in memory" measured by the garbage collector itself: every entry handed out gets a finalizer; after the
+		// working set has been filled with cacheable responses of a long lifetime, at most S entries may still be alive
+		if c.Want("live-entries-after-gc") && c.Shard == 1%c.NShards {
+			st := c.Stat("live-entries-after-gc", "enumeration")
+			st.Bounds = "sizes {8, 16, 100}: 6S+40 keys each looked up and filled with a cacheable 2 KiB response (lifetime 1 h), then two garbage collections: entries not yet finalized <= S"
+			for _, S := range []int{8, 16, 100} {
+				cache.VerifFreshRegistries()
+				cache.ResetDispatchers([]config.CacheConfig{{Name: "c", Size: S, HitForPass: "5m"}})
+				var finalized int64
+				n := 6*S + 40
+				func() {
+					d := cache.GetDispatcher("c")
+					for j := 0; j < n; j++ {
+						hc := d.GetHTTPCache([]byte(fmt.Sprintf("GET a.com /g%d", j)))
+						runtime.SetFinalizer(hc, func(interface{}) { atomic.AddInt64(&finalized, 1) })
+						if stt, _ := hc.Get(); stt == cache.StatusFetching {
+							resp, _ := cache.NewHTTPResponse(200, http.Header{"Content-Type": {"text/plain"}}, "", bytes.Repeat([]byte("x"), 2048))
+							hc.Cacheable(resp, 3600)
+						}
+					}
+				}()
+				// finalizers run on their own goroutine some time after a collection: poll (for up to ~10 s under load)
+				live := int64(n)
+				for k := 0; k < 250 && live > int64(S)+2; k++ {
+					runtime.GC()
+					time.Sleep(20 * time.Millisecond)
+					live = int64(n) - atomic.LoadInt64(&finalized)
+				}
+				st.Execs++
+				if live > int64(S)+2 {
+					c.Violation("live-entries-after-gc", "evicted-entries-stay-in-memory", fmt.Sprintf("size %d: of %d entries created %d are still alive after garbage collection (the cache may hold %d)", S, n, live, S), nil, map[string]int{"size": S}, nil)
+				}
+			}
+			st.States, st.Transitions, st.Nontrivial = st.Execs, st.Execs, st.Execs
+			st.NOutcomes = int(st.Execs)
 		}
 		if c.Want("resize-by-reload") && c.Shard == 0 {
 			st := c.Stat("resize-by-reload", "enumeration")
